@@ -898,11 +898,20 @@ class Channel:
                 # also from the "sendonly" state: the other side dropped its
                 # channel object but may still have a callback registered
                 put = self.gateway._send
-                if error is not None:
-                    put(Message.CHANNEL_CLOSE_ERROR, self.id, dumps_internal(error))
-                else:
-                    put(Message.CHANNEL_CLOSE, self.id)
-                self._trace("sent channel close message")
+                try:
+                    if error is not None:
+                        put(
+                            Message.CHANNEL_CLOSE_ERROR,
+                            self.id,
+                            dumps_internal(error),
+                        )
+                    else:
+                        put(Message.CHANNEL_CLOSE, self.id)
+                    self._trace("sent channel close message")
+                except OSError:
+                    # the connection is going down (e.g. right after
+                    # gateway.exit()): nobody to tell, close locally
+                    self._trace("could not send channel close message")
             if isinstance(error, RemoteError):
                 self._remoteerrors.append(error)
             self._closed = True  # --> "closed"
